@@ -158,6 +158,16 @@ func c24Classify(argv []string, interp, bash c24Obs) (class string, note string)
 			best = search(sens)
 		}
 	}
+	if best == 0 && same(all, interp) {
+		// last resort: shrink the full set greedily
+		best = c24qAll
+		for i := range c24QuirkNames {
+			q := c24Q(1) << uint(i)
+			if same(c24Ref(argv, best&^q), interp) {
+				best &^= q
+			}
+		}
+	}
 	if best == 0 {
 		return "", "no set of known quirks reproduces the interpreter"
 	}
